@@ -224,7 +224,7 @@ func init() {
 	engine.Register(&engine.Prop{
 		ID: "C09",
 		Shards: func(th bool) []string {
-			var s []string
+			s := []string{"repeat"}
 			for k := range c09Kinds {
 				for sub := 0; sub < 8; sub++ {
 					s = append(s, fmt.Sprintf("%d:%d", k, sub))
@@ -233,7 +233,7 @@ func init() {
 			return s
 		},
 		Run:  c09Run,
-		Rule: "nestings of {for over a slice / an Iterator / a map, user-function call, partial with data, contentFor+contentOf with data, contentOf default block with data, block helper using BlockWith(child), block helper using Block(), if, contentFor defined at top level and used at the inner level, one contentFor block used twice (with and without data), one data map held in a variable and passed to two partial calls}; at each level every subset of {let fresh_l, shadowing let o, assignment o = …}; every name (o, fresh names, loop variables, parameters, data names of every level) is probed at the end of each body, after each construct closes and at the end of the template; compared with an environment-chain reference model (let/assign bind in the current scope, lookup outward; for/call/partial/contentOf/BlockWith open a scope, if and Block() do not; a far contentFor block runs in a child of its definition scope). Non-trivial: depth >= 2 with at least one binding action.",
+		Rule: "nestings of {for over a slice / an Iterator / a map, user-function call, partial with data, contentFor+contentOf with data, contentOf default block with data, block helper using BlockWith(child), block helper using Block(), if, contentFor defined at top level and used at the inner level, one contentFor block used twice (with and without data), one data map held in a variable and passed to two partial calls}; at each level every subset of {let fresh_l, shadowing let o, assignment o = …}; every name (o, fresh names, loop variables, parameters, data names of every level) is probed at the end of each body, after each construct closes and at the end of the template; compared with an environment-chain reference model (let/assign bind in the current scope, lookup outward; for/call/partial/contentOf/BlockWith open a scope, if and Block() do not; a far contentFor block runs in a child of its definition scope). (repeat) every scope-opening construct entered twice or more from the same place (a function called from two tags / from every loop iteration / recursively, a partial and a contentOf rendered twice, a loop run twice, BlockWith twice): the body reads a name BEFORE its own let of that name, or lets it on one path only - every entry must see the outer value (or nothing), never what an earlier entry bound. Non-trivial: depth >= 2 with at least one binding action.",
 		Bound: func(th bool) string {
 			if th {
 				return "depth <=3, all 8 action subsets per level"
@@ -244,6 +244,10 @@ func init() {
 }
 
 func c09Run(t *engine.T, shard string) {
+	if shard == "repeat" {
+		c09Repeat(t)
+		return
+	}
 	var k0, s0 int
 	fmt.Sscanf(shard, "%d:%d", &k0, &s0)
 	run := func(levels []c09Level) {
@@ -289,5 +293,60 @@ func c09Run(t *engine.T, shard string) {
 				}
 			}
 		}
+	}
+}
+
+// c09Repeat: names bound by one entry of a scope-opening construct are gone at its next entry.
+func c09Repeat(t *engine.T) {
+	probeX := `<%= if (x) { %><%= x %><% } else { %>-<% } %>`
+	cases := []struct{ name, src, want string }{
+		{"function reads outer x before its own let, called from two tags", `<% let x = "outer" %><% let f = fn() { let r = x
+ let x = "inner"
+ return r + "/" + x } %><%= f() %>,<%= f() %>,<%= f() %>|<%= x %>`, "outer/inner,outer/inner,outer/inner|outer"},
+		{"function lets a name on one path only, called per loop iteration", `<% let f = fn(n) { if (n == 1) { let t = "T" }
+ if (t) { return "F" + n }
+ return "-" + n } %><%= for (i) in [1, 2, 3, 1, 2] { %><%= f(i) %> <% } %>`, "F1 -2 -3 F1 -2 "},
+		{"function with a parameter probed before a let of the same name", `<% let f = fn(a) { let r = a
+ let a = "L"
+ return r + a } %><%= f("1") %>,<%= f("2") %>,<%= f("3") %>`, "1L,2L,3L"},
+		{"function called from a function twice", `<% let x = "o" %><% let g = fn() { let r = x
+ let x = "i"
+ return r } %><% let h = fn() { return g() + g() + g() } %><%= h() %>|<%= h() %>`, "ooo|ooo"},
+		{"recursive function with a let after the self call", `<% let f = fn(n) { if (n == 0) { return "" }
+ if (seen) { return "LEAK" }
+ let rest = f(n - 1)
+ let seen = "S"
+ return rest + n } %><%= f(3) %>|<%= f(2) %>`, "123|12"},
+		{"partial rendered twice", `<% let x = "outer" %><%= partial("px") %>,<%= partial("px") %>|<%= x %>`, "outer/inner,outer/inner|outer"},
+		{"partial with data rendered per iteration", `<%= for (i) in [1, 2, 3] { %><%= partial("pt", {"n": i}) %> <% } %>`, "F1 -2 -3 "},
+		{"contentOf rendered twice", `<% let x = "outer" %><% contentFor("c") { %>` + probeX + `/<% let x = "inner" %>` + probeX + `<% } %><%= contentOf("c") %>,<%= contentOf("c") %>|<%= x %>`, "outer/inner,outer/inner|outer"},
+		{"contentOf default block rendered per iteration", `<%= for (i) in [1, 2, 3] { %><%= contentOf("undefined", {"n": i}) { %><% if (n == 1) { let t = "T" } %><%= if (t) { %>F<% } else { %>-<% } %><%= n %><% } %> <% } %>`, "F1 -2 -3 "},
+		{"loop body lets a name after probing it, loop run twice", `<% let x = "outer" %><%= for (k) in [1, 2] { %><%= for (i) in [1] { %>` + probeX + `/<% let x = "inner" %>` + probeX + `,<% } %><% } %>|<%= x %>`, "outer/inner,outer/inner,|outer"},
+		{"BlockWith(child) twice by one helper", `<% let x = "outer" %><%= twice() { %>` + probeX + `/<% let x = "inner" %>` + probeX + `,<% } %>|<%= x %>`, "outer/inner,outer/inner,|outer"},
+		{"function defined in a loop body and called there", `<% let x = "outer" %><%= for (i) in [1, 2] { %><% let f = fn() { let r = x
+ let x = "in" + i
+ return r + "/" + x } %><%= f() %>,<%= f() %>;<% } %>|<%= x %>`, "outer/in1,outer/in1;outer/in2,outer/in2;|outer"},
+	}
+	for _, c := range cases {
+		c := c
+		t.Case("repeat "+c.name+" "+q(c.src), true, func() (string, *engine.Fail) {
+			ctx := c09Context(map[string]string{
+				"px": `<%= x %>/<% let x = "inner" %><%= x %>`,
+				"pt": `<% if (n == 1) { let t = "T" } %><%= if (t) { %>F<% } else { %>-<% } %><%= n %>`,
+			})
+			ctx.Set("twice", func(help plush.HelperContext) (template.HTML, error) {
+				a, err := help.BlockWith(help.New())
+				if err != nil {
+					return "", err
+				}
+				b, err := help.BlockWith(help.New())
+				return template.HTML(a + b), err
+			})
+			out, err := Render(c.src, ctx)
+			if err != nil || out != c.want {
+				return "", engine.Failf("mismatch", "expected %q, got %q / %v", c.want, out, err)
+			}
+			return "repeat", nil
+		})
 	}
 }
